@@ -815,7 +815,7 @@ def r16m(F):
 	return [Result('16.m', ok, ('ok:' if ok else 'shape:') + 'overflow-blames-first-aggregated-hop', 'max_final_value_msat: the hop reported when the downstream fees overflow (%s%+d) is the first hop whose fees were aggregated (skip %s%+d)' % (list(tr)[0] if tr else '', kr, list(ts)[0] if ts else '', ks) if ok else 'max_final_value_msat: fees are aggregated over the hops after skipping %s%+d, but on overflow hop %s%+d is reported for discarding: the hop that is marked exhausted is not one of the hops whose fees overflowed (at idx = 0 it is the payer\'s own first hop)' % (list(ts)[0] if ts else '?', ks, list(tr)[0] if tr else '?', kr), 2, where=F.where(cn))]
 
 RULES.append(('16.m', 'max_final_value_msat: the hop reported on fee-aggregation overflow is the first hop whose fees were aggregated (error index == skip count, linear normal forms)', r16m))
-RULES.append(('16.N', 'arithmetic census: per reviewed function the number of operations per (group: add/sub, mul, div, rem, shift, bit, min, max, div_ceil ...; flavour: plain / checked / saturating / wrapping) is unchanged - a dropped or added `+ 1`, a rounding direction, saturating for checked, min for max (rules/arith.py; value arithmetic itself is not decided)', lambda F: arith.for_property(F, 'C16', '16.N')))
+RULES.append(('16.N', 'arithmetic census: per reviewed function the set of operation kinds (group: add/sub, mul, div, rem, shift, bit, min, max, div_ceil ...; flavour: plain / checked / saturating / wrapping) keeps its kinds: no reviewed function lost or gained a kind of arithmetic altogether - a rounding direction (`/` for div_ceil), saturating for checked, min for max (rules/arith.py; counts and value arithmetic itself are not judged)', lambda F: arith.for_property(F, 'C16', '16.N')))
 
 def r16n(F):
 	"""BOLT 7 direction convention in one place for all callers: Direction::select_node_id answers the lesser node id for NodeOne and the greater
